@@ -73,7 +73,8 @@ def angDms (degrees minutes : Int) (seconds : Num) : Num :=
   let degrees := imod dm.1 360
   let minutes := dm.2
   -- deg = sign * (de + mi / 60.0 + se / 3600.0)
-  sign * (ofInt degrees + ofInt minutes / 60.0 + seconds / 3600.0)
+  -- return Angle.reduce_deg(deg)        (the binary64 sum may round up to a whole turn)
+  angReduce (sign * (ofInt degrees + ofInt minutes / 60.0 + seconds / 3600.0))
 
 /-- `Angle + Angle`, `Angle + float`, `+=`: `Angle(self._deg + b)`. -/
 def angAdd (a b : Num) : Num := angReduce (a + b)
